@@ -217,7 +217,7 @@ def Ms.nodeAtoms : Ms → List Atom
   | _ => []
 
 /-- the keys of ONE node (`get_nth_pk`, the arms of `for_each_key`) -/
-def Ms.nodeKeys : Ms → List Key
+def Ms.keysAt : Ms → List Key
   | .pkK k | .pkH k => [k]
   | .multi _ ks | .sortedMulti _ ks | .multiA _ ks | .sortedMultiA _ ks => ks
   | _ => []
@@ -226,7 +226,7 @@ def Ms.nodeKeys : Ms → List Key
 def Ms.atomsRtl (ms : Ms) : List Atom := ms.rtlPost.flatMap Ms.nodeAtoms
 
 /-- all keys in pre-order = the order in which they appear in the string form -/
-def Ms.keys (ms : Ms) : List Key := ms.pre.flatMap Ms.nodeKeys
+def Ms.keys (ms : Ms) : List Key := ms.pre.flatMap Ms.keysAt
 
 /-! ## `substitute_raw_pkh` -/
 
@@ -373,7 +373,7 @@ def pkIterNode (node : Ms) : Nat → Nat → List Key
     | some pk => pk :: pkIterNode node fuel (idx + 1)
 
 /-- `ms.iter_pk().collect()` -/
-def Ms.iterPk (ms : Ms) : List Key :=
-  ms.iterNodes.flatMap fun node => pkIterNode node (node.nodeKeys.length + 1) 0
+def Ms.iterPkLit (ms : Ms) : List Key :=
+  ms.iterNodes.flatMap fun node => pkIterNode node (node.keysAt.length + 1) 0
 
 end MsVerif
